@@ -61,6 +61,11 @@ def finish(chk: Check, results, kinds: set, rule: str) -> int:
     for e in raised:
         if not e.get("histsame", True) and chk.pid == "C16":
             chk.violation(f"{e['cls']}:history-modified", f"{e['cls']} modified the history before raising {e['what']}", {"event": e})
+        if e.get("ordinary"):
+            # ... and on an ordinary history (finite losses of ordinary size) a built-in sampler has to return its batch
+            chk.violation(f"{e['cls']}:raised-on-ordinary-history:{e['what'].split(':')[0]}",
+                          f"{e['cls']}.sample raised {e['what']} on an on-grid history with finite losses (call {e['call']}, batch size {e['bs']}, "
+                          f"options {e['kw']})", {"event": e})
     use = [e for e in evs if e["e"] in kinds]
     res = tlc.validate_parallel("SamplerContractTrace", "SamplerContractTrace.cfg", [[sh.strip(e)] for e in use], parts=12)
     chk.add_validation(res)
